@@ -100,7 +100,11 @@ Fixpoint canon_key (v : value) {struct v} : T :=
   end.
 
 Definition key_tuple (sort : list (bytes * Z)) (d : obj) : T :=
-  TL (map (fun o => if doc_has (fst o) d then TL [TZ 1; canon_key (doc_get (fst o) d)] else TL [TZ 0]) sort).
+  (* an absent field orders together with nil (they are tied: either may come first) *)
+  TL (map (fun o => match doc_get (fst o) d with
+                    | VNil => TL [TZ 0]
+                    | v => TL [TZ 1; canon_key v]
+                    end) sort).
 
 (* how a result list is rendered:
    no sort, mode 2 : documents exactly in result order
